@@ -31,6 +31,12 @@ pub const BAD: &[&str] = &[
     "The quik brown fox jumps.",
     "We discused the the plan.",
     "My freind has a unique idea and a honest face.",
+    // lints whose fix inserts text after the flagged text
+    "We bought apples, bananas and cherries today.",
+    "This is wrong ,right after the comma.",
+    // a lint that encloses other lints
+    "He said teh teh thing again.",
+    "This sentence is very long because it keeps going on and on with more and more wrods that nobody needs to read at all and it still does not stop even though the reader has lost all intrest in it by now and wants it to end.",
 ];
 
 /// Sentences without lints under the curated configuration.
@@ -54,6 +60,10 @@ pub const UNI: &[&str] = &[
     "日本語 is mixed with an English wrold.",
     "𐍈 Gothic then 😀 and recieve.",
     "Zero\u{200b}width and an apple an orange.",
+    // astral-plane and combining characters inside the flagged text itself
+    "The wr𝒜ld is a te𝓈t of 𝒜stral wrods.",
+    "A cafe\u{301}x and a nai\u{308}vex word are here.",
+    "It is an 😀 emoji and an 𝒜 letter after an article.",
 ];
 
 /// Made-up or unusual words a user might add to a dictionary.
